@@ -612,4 +612,117 @@ theorem terminal_shape {cfg : Cfg} {script : List Cmd} {s : State} (hr : Reach c
     obtain ⟨p, hp⟩ := exists_of_range (hrange _ rfl)
     simp [hp] at hmain
 
+/-! ### `wait=True`: nothing clears a `go` event while `close` runs -/
+
+/-- hypothesis of the wait clause: whenever the script calls `close` on a manager that is not yet
+    finished, no player that still is in (or before) its loop has its `go` event cleared — no
+    player is paused at the time `close` is called (nothing can resume it afterwards: the
+    control script is the only caller of `play()`, and it is inside `close`). -/
+def UnpausedAtClose (cfg : Cfg) (script : List Cmd) : Prop :=
+  ∀ s, Reach cfg script s → s.mpc = .kHAcq → s.finished = false →
+    ∀ (k : Nat) (p : Player), s.players[k]? = some p → p.go = true ∨ afterLoop p.pc = true
+
+def GC (s : State) : Prop :=
+  preTerm s.mpc = true → ∀ (k : Nat) (p : Player), s.players[k]? = some p →
+    p.go = true ∨ afterLoop p.pc = true
+
+theorem stepPlayer_afterLoop (cfg : Cfg) (s s' : State) (i : Nat) (h : stepPlayer cfg s i = some s') :
+    ∃ p p', s.players[i]? = some p ∧ s'.players = s.players.set i p' ∧ p'.go = p.go ∧
+      (afterLoop p.pc = true → afterLoop p'.pc = true) := by
+  unfold stepPlayer at h
+  split at h
+  · cases h
+  · rename_i p hp
+    simp only at h
+    cases hpcv : p.pc <;> simp only [hpcv] at h <;> (try split at h) <;> (try cases h) <;>
+      (refine ⟨p, _, hp, rfl, rfl, ?_⟩) <;> (try split) <;> simp [afterLoop, hpcv]
+
+theorem gc_set {s : State} {i : Nat} {p p' : Player} (m' : MPc)
+    (inv : ∀ (k : Nat) (q : Player), s.players[k]? = some q → q.go = true ∨ afterLoop q.pc = true)
+    (hp : s.players[i]? = some p) (hi : p.go = true ∨ afterLoop p.pc = true → p'.go = true ∨ afterLoop p'.pc = true) :
+    ∀ (k : Nat) (q : Player), (s.players.set i p')[k]? = some q → q.go = true ∨ afterLoop q.pc = true := by
+  intro k q hk
+  rcases getElem?_set_cases hk with ⟨hki, hq⟩ | ⟨hki, hq⟩
+  · subst hki; subst hq; exact hi (inv k p hp)
+  · exact inv k q hq
+
+theorem gc_stepMain (cfg : Cfg) (script : List Cmd) (s s' : State) (h : stepMain cfg s = some s')
+    (hf : cfg.fixed = true) (H : UnpausedAtClose cfg script) (hr : Reach cfg script s)
+    (inv : GC s) : GC s' := by
+  unfold stepMain at h
+  cases hm : s.mpc <;> simp only [hm] at h
+  case kHAcq =>
+    split at h
+    · cases h
+    split at h
+    · cases h; intro hp; simp [preTerm] at hp
+    · rename_i hfin
+      cases h
+      intro _
+      exact H s hr hm (by simpa using hfin)
+  case kMAcq =>
+    split at h
+    · cases h
+    cases h
+    intro _; exact inv (by rw [hm]; rfl)
+  case kMRel f =>
+    have inv' := inv (by rw [hm]; rfl)
+    cases f with
+    | none => simp only at h; split at h <;> cases h <;> intro _ <;> exact inv'
+    | some j => simp only at h; cases h; intro _; exact inv'
+  case kJoin j =>
+    split at h
+    · cases h; intro _; exact inv (by rw [hm]; rfl)
+    · cases h
+  case kSAcq j =>
+    split at h
+    · rename_i p hp
+      split at h
+      · cases h
+      cases h
+      intro _
+      exact gc_set .done (inv (by rw [hm]; rfl)) hp (fun h => h)
+    · cases h
+  case kSEvt j =>
+    split at h
+    · rename_i p hp
+      cases h
+      intro _
+      exact gc_set .done (inv (by rw [hm]; rfl)) hp (fun _ => Or.inl (by simp [ctlGo, hf]))
+    · cases h
+  case kSRel j =>
+    split at h
+    · rename_i p hp
+      cases h
+      intro _
+      exact gc_set .done (inv (by rw [hm]; rfl)) hp (fun h => h)
+    · cases h
+  all_goals
+    (try split at h) <;> (try split at h) <;> (try split at h) <;> (try cases h) <;>
+    (intro hp
+     first
+       | (rw [(next_startPc _ _).1] at hp; cases hp)
+       | (rw [(nextCmd_startPc _ _).1] at hp; cases hp)
+       | (simp [preTerm] at hp; done))
+
+theorem gc_reach {cfg : Cfg} {script : List Cmd} {s : State} (hf : cfg.fixed = true)
+    (H : UnpausedAtClose cfg script) (h : Reach cfg script s) : GC s := by
+  induction h with
+  | init => intro hp; simp [init, preTerm] at hp
+  | step hr hs ih =>
+    rename_i s s' t
+    cases t with
+    | main => exact gc_stepMain cfg script s s' hs hf H hr ih
+    | player j =>
+      obtain ⟨h1, _⟩ := stepPlayer_frame cfg s s' j hs
+      obtain ⟨p, p', hp, hs', hgo, hal⟩ := stepPlayer_afterLoop cfg s s' j hs
+      intro hpre
+      rw [h1] at hpre
+      rw [hs']
+      refine gc_set .done (ih hpre) hp ?_
+      intro h
+      rcases h with h | h
+      · exact Or.inl (by rw [hgo]; exact h)
+      · exact Or.inr (hal h)
+
 end ALV.C17
